@@ -243,6 +243,47 @@ def run(sx, n, preserve, mode, flipped, sections=1, lengths="distinct", move=Fal
     return "graded"
 
 
+def run_chain3(sx, preserve, flip_middle):
+    """three stacked blocks A (chopped along x, a size preserved) -> B (unchopped, optionally numbered with x and y
+    reversed) -> C (unchopped, numbered like A): the preserved size is realised at the same geometric end in all three.
+    Concrete geometry (every x edge has another length), the preserved size is the only input; ground twins only."""
+    size = sx.real("size", Fraction(1, 50), Fraction(2, 25))
+    if sx.sym:
+        return "skip"
+
+    def box(z0, lens, flip=False):
+        b = [[0, 0, z0], [lens[0], 0, z0], [lens[1], 1, z0], [0, 1, z0]]
+        t = [[0, 0, z0 + 1], [lens[2], 0, z0 + 1], [lens[3], 1, z0 + 1], [0, 1, z0 + 1]]
+        if flip:
+            b, t = [b[2], b[3], b[0], b[1]], [t[2], t[3], t[0], t[1]]
+        return cb.Loft(cb.Face(b), cb.Face(t))
+    A, B, C = box(0, [1, 1.1, 1.2, 1.3]), box(1, [1.2, 1.3, 1.4, 1.5], flip_middle), box(2, [1.4, 1.5, 1.6, 1.7])
+    A.chop(0, count=5, preserve=preserve, **{preserve: float(size)})
+    A.chop(1, count=2)
+    for op in (A, B, C):
+        op.chop(2, count=2)
+    mesh = cb.Mesh()
+    for op in (A, B, C):
+        mesh.add(op)
+    mesh.assemble()
+    mesh.grade()
+    sx.reach("graded")
+    for name, blk in zip("ABC", mesh.blocks):
+        ok = True
+        seen = []
+        for w in blk.axes[0].wires.wires:
+            p, q = w.vertices[0].position, w.vertices[1].position
+            start = p if abs(float(p[0])) < 1e-9 else q
+            cells = cell_sizes(sx, float(abs(q[0] - p[0])), _oriented(w, start))
+            got = cells[0] if preserve == "start_size" else cells[-1]
+            seen.append(round(float(got), 5))
+            ok = ok and abs(float(got) - float(size)) < 1e-6
+        sx.prove(ok, f"chain of three, middle block {'reversed' if flip_middle else 'aligned'}: block {name} has the preserved "
+                 f"{preserve} on its four x edges, at the same geometric end as the chopped block",
+                 f"C04:preserve:chain3:{name}:{preserve}:{'reversed-middle' if flip_middle else 'aligned'}", info={"sizes": seen, "want": float(size)})
+    return "graded"
+
+
 def _oriented(wire, start_pos):
     """grading specification of the wire as seen from `start_pos`"""
     spec = [list(s) for s in wire.grading.specification]
@@ -280,6 +321,9 @@ def jobs(tier, seed):
     for preserve in ("start_size", "end_size"):
         js.append({"name": f"n=2|{preserve}|size|flipped=False|graded, moved, graded again|ground twin only", "fn": "run",
                    "symbolic": False, "params": {"n": 2, "preserve": preserve, "mode": "size", "flipped": False, "move": True}})
+    chain3 = [{"name": f"chain of three|{preserve}|middle block reversed={fm}|ground twin only", "fn": "run_chain3", "symbolic": False,
+               "params": {"preserve": preserve, "flip_middle": fm}, "budget_s": 60}
+              for preserve in ("start_size", "end_size") for fm in (False, True)]
     for flipped in (False, True):
         js.append({"name": f"two-sections|n=2|c2c|flipped={flipped}", "fn": "run",
                    "params": {"n": 2, "preserve": "c2c_expansion", "mode": "c2c", "flipped": flipped, "sections": 2}})
@@ -295,7 +339,7 @@ def jobs(tier, seed):
             if j.get("symbolic") is False:
                 jj["symbolic"] = False
             out.append(jj)
-    js = out
+    js = out + chain3
     for j in js:
         j["budget_s"] = 280 if tier == "quick" else 1500
         j["timeout_ms"] = 20000 if tier == "quick" else 120000
